@@ -18,7 +18,7 @@ def unmText : Option Nat → String
   | some n => s!"u={n}"
 
 def statsText : St → String
-  | .bai i => ";".intercalate ([s!"n={i.refs.length}"] ++ i.refs.map (fun r => statsOne r.stats) ++ [unmText i.unmapped])
+  | .bai i _ => ";".intercalate ([s!"n={i.refs.length}"] ++ i.refs.map (fun r => statsOne r.stats) ++ [unmText i.unmapped])
   | .csi i => ";".intercalate ([s!"n={i.refs.length}"] ++ i.refs.map (fun r => statsOne r.stats) ++ [unmText i.unmapped])
   | .tbx t _ => ";".intercalate ([s!"n={t.idx.refs.length}"] ++ t.idx.refs.map (fun r => statsOne r.stats) ++ [unmText t.idx.unmapped])
 
@@ -45,7 +45,7 @@ def handle (cmd : String) (args : List String) : Option String :=
     let qs ← parseQueries qs
     let bs ← parseHex hex
     let base : St ← match kind with
-      | "bai" => some (.bai {})
+      | "bai" => if pool == "-" then some (.bai {} Local.adjacent) else (parseStrategy pool).map (.bai {})
       | "csi" => some (.csi {})
       | "tbx" => do
         -- "n" followed by "/<hex>" per pool name ("n/-" is the one empty name, "n" no name at all)
